@@ -219,6 +219,15 @@ class Project:
         if os.environ.get("TPMSA_NO_NORMALISE") != "1":
             from . import normalise
             self.member_log = normalise.inline_new_members({n: m.tree for n, m in self.modules.items()}, normalise.load_shape())
+        # what a module takes from other modules is what it *uses* after the cross-module expansion above: attribute names and
+        # the imported names it actually loads (an import left over for a helper that was expanded in place keeps nothing alive)
+        for m in self.modules.values():
+            imported = {(a.asname or a.name) for n in ast.walk(m.tree) if isinstance(n, ast.ImportFrom) for a in n.names}
+            loaded = {n.id for n in ast.walk(m.tree) if isinstance(n, ast.Name) and isinstance(n.ctx, ast.Load)}
+            strings = {n.value for n in ast.walk(m.tree) if isinstance(n, ast.Constant) and isinstance(n.value, str) and n.value.isidentifier()}
+            is_init = m.relpath.endswith("__init__.py")
+            m.identifiers = {n.attr for n in ast.walk(m.tree) if isinstance(n, ast.Attribute)} | \
+                (imported if is_init else (imported & (loaded | strings)))   # (a package __init__ re-exports what it imports)
         for name, m in self.modules.items():
             others = set()
             for n2, m2 in self.modules.items():
